@@ -63,6 +63,16 @@ class WithConstraint(Component):
     s.add_constraints(U(up_t) < U(up_u))
 
 
+class NestedConst(Component):
+  """a child (and a grandchild) of the replaced component ties a constant to one of its own signals"""
+  def construct(s):
+    s.in_ = InPort(32); s.out = OutPort(32)
+    s.a = WithConst(); s.n = Nested()
+    s.a.in_ //= s.in_; s.n.in_ //= s.a.out; s.out //= s.n.out
+    s.pad = Wire(8)
+    s.pad //= 0x5a
+
+
 class WithRdWr(Component):
   """explicit read/write constraints: up_late reads s.t although it is ordered before the writer's readers"""
   def construct(s):
@@ -115,7 +125,7 @@ class Wrapper(Component):
     s.inner.in_ //= s.in_; s.out //= s.inner.out
 
 
-KINDS = {'Plain': Plain, 'Swapper': Swapper, 'Adder': Adder, 'RegStage': RegStage, 'WithConst': WithConst, 'Nested': Nested, 'WithConstraint': WithConstraint, 'WithSink': WithSink, 'WithRdWr': WithRdWr, 'StructuralConstrained': StructuralConstrained}
+KINDS = {'Plain': Plain, 'Swapper': Swapper, 'Adder': Adder, 'RegStage': RegStage, 'WithConst': WithConst, 'Nested': Nested, 'WithConstraint': WithConstraint, 'WithSink': WithSink, 'WithRdWr': WithRdWr, 'StructuralConstrained': StructuralConstrained, 'NestedConst': NestedConst}
 
 
 class Top(Component):
@@ -148,6 +158,8 @@ HISTORIES = {
   'rdwr_twice':        ([('s.c[0]', 'WithRdWr', 'cls'), ('s.c[0]', 'WithRdWr', 'cls'), ('s.w.inner', 'WithRdWr', 'cls'), ('s.w.inner', 'Adder', 'cls')], ('WithRdWr', 'Plain', 'Plain'), 'Adder'),
   'structural_constraints': ([('s.c[1]', 'StructuralConstrained', 'cls')], ('Plain', 'StructuralConstrained', 'Plain'), 'Plain'),
   'structural_away':   ([('s.c[1]', 'StructuralConstrained', 'cls'), ('s.c[1]', 'Adder', 'cls'), ('s.w.inner', 'StructuralConstrained', 'obj'), ('s.w.inner', 'Plain', 'cls')], ('Plain', 'Adder', 'Plain'), 'Plain'),
+  'nested_const':      ([('s.c[1]', 'NestedConst', 'cls')], ('Plain', 'NestedConst', 'Plain'), 'Plain'),
+  'nested_const_away': ([('s.c[1]', 'NestedConst', 'cls'), ('s.c[1]', 'NestedConst', 'obj'), ('s.w.inner', 'NestedConst', 'cls'), ('s.w.inner', 'Swapper', 'cls')], ('Plain', 'NestedConst', 'Plain'), 'Swapper'),
   'internal_method_net': ([('s.c[1]', 'WithSink', 'cls')], ('Plain', 'WithSink', 'Plain'), 'Plain'),
   'method_net_away':   ([('s.c[1]', 'WithSink', 'cls'), ('s.c[1]', 'Adder', 'cls')], ('Plain', 'Adder', 'Plain'), 'Plain'),
   'reg_everywhere':    ([('s.c[0]', 'RegStage', 'cls'), ('s.c[1]', 'RegStage', 'cls'), ('s.w.inner', 'RegStage', 'obj')], ('RegStage', 'RegStage', 'Plain'), 'RegStage'),
